@@ -281,12 +281,25 @@ func (c *caseCtx) completenessProofs(rng *rand.Rand) {
 		seek := c.probes[(pi*7+3)%len(c.probes)].Key
 		pf := prefetches[rng.IntN(len(prefetches))]
 		for ver := 0; ver <= 1; ver++ {
-			f := complFail{Op: "iterate", Key: hx(seek), Limit: pf, Version: ver, Position: "root"}
+			// A reader that has already resolved part of the tree states that node as its
+			// position; an iteration proof must cover the asked range against the ROOT all the same.
+			pos, posKind := c.root.Hash, "root"
+			switch x := rng.IntN(10); {
+			case x < 3:
+				var path []hash.Hash
+				c.pathOf(seek, &path)
+				if len(path) > 1 {
+					pos, posKind = path[1+rng.IntN(len(path)-1)], "on-path"
+				}
+			case x == 3 && len(c.fullHashes) > 0:
+				pos, posKind = c.fullHashes[rng.IntN(len(c.fullHashes))], "some-node"
+			}
+			f := complFail{Op: "iterate", Key: hx(seek), Limit: pf, Version: ver, Position: posKind + ":" + hshort(pos)}
 			var rsp *syncer.ProofResponse
 			var err error
 			if msg, st := guard(func() {
 				rsp, err = c.server.SyncIterate(c.ctx, &syncer.IterateRequest{
-					Tree: syncer.TreeID{Root: c.root, Position: c.root.Hash}, Key: seek, Prefetch: uint16(pf), ProofVersion: uint16(ver),
+					Tree: syncer.TreeID{Root: c.root, Position: pos}, Key: seek, Prefetch: uint16(pf), ProofVersion: uint16(ver),
 				})
 			}); msg != "" {
 				c.complViolation("panic/server-synciterate", "panic in SyncIterate: "+msg, f, nil, st)
